@@ -208,11 +208,10 @@ theorem copyRef_sep_step {h0 : Heap} (wf : WfM h0) (fuel : Nat) (ih : CpSep h0 (
         refine ⟨s, fun r' x h1 h2 => ?_⟩
         simp at h1; subst h1; injection h2 with h2; subst h2
         exact Or.inr ⟨t, by rw [← hold]; exact hc⟩
-      · rename_i cv cfr orb ofr hc
+      · rename_i cb cfr orb ofr hc
         have horb : orb < h0.length := wf.closed a _ (by rw [← hold]; exact hc) orb (by simp [refsOf])
         split
-        · exact ⟨s, fun r' x h1 _ => by simp at h1⟩
-        · rename_i o ho
+        · rename_i o cv ho hcb
           have s1 := copySVWith_sep wf ih h s orb horb
           split
           · rename_i h1 e he; rw [he] at s1; exact ⟨s1, fun r' x h1 _ => by simp at h1⟩
@@ -234,10 +233,17 @@ theorem copyRef_sep_step {h0 : Heap} (wf : WfM h0) (fuel : Nat) (ih : CpSep h0 (
                   · rcases refs_insert h1 with h2 | h2
                     · simp at h2
                     · exact hgood x h2)
-              refine ⟨s3.al _ (by intro x hx; simp [refsOf] at hx; subst hx; exact Good.new (by omega)), fun r' x h1' h2 => ?_⟩
+              have hl1 : h0.length ≤ h1.length := s1.pres.1
+              have s4 := s3.al (.buf cv) (by simp [refsOf])
+              refine ⟨s4.al _ (by
+                intro x hx
+                simp [refsOf, alloc, write] at hx
+                rcases hx with rfl | rfl
+                · exact Good.new (by omega)
+                · exact Good.new (by omega)), fun r' x h1' h2 => ?_⟩
               simp [alloc, write] at h1'; subst h1'; injection h2 with h2
-              have : h0.length ≤ h1.length := s1.pres.1
               exact Good.new (by omega)
+        · exact ⟨s, fun r' x h1 _ => by simp at h1⟩
       · have s1 := copySVWith_sep wf ih h s a ha
         split
         · rename_i h1 e he; rw [he] at s1; exact ⟨s1, fun r' x h1 _ => by simp at h1⟩
